@@ -12,11 +12,14 @@ from ..core import Violation
 from ..world import World
 
 PID = 'C18'
+KF_PENDING = 'pending-admin-receives-traffic'
+KNOWN = set()
 RULE = ('Three generated parts. gate: auth configured as a non-empty dict of '
         'string credentials, a non-empty list of such dicts, a sync / async '
         'predicate (total, returning bools or truthy / falsy values, or '
         'raising on payloads of a shape it does not expect), or False; '
-        'modes x read_only; admin CONNECT with payload '
+        'modes x read_only; an asynchronous predicate that is still '
+        'deciding while application traffic goes on; admin CONNECT with payload '
         'absent, None, non-dicts, exact match, key permutations, '
         'sub/supersets, type-confused and nested variants, other list '
         'members: accepted iff the documented rule says so, a refused '
@@ -38,7 +41,9 @@ ASSUMPTIONS = [
     'not satisfy it (how the attempt is turned down is then not judged, '
     'only that it is); coroutine predicates only with AsyncServer',
     'traffic a candidate receives about its own provisional sid before the '
-    'CONNECT_ERROR is an observation, not judged',
+    'CONNECT_ERROR is an observation, not judged; reports about other '
+    'clients that it receives while its verdict is pending are judged '
+    '(known finding)',
     'statistics tasks are collected and never run; engine.io Socket class '
     'attributes patched by instrument() are restored after every case',
     'transparency scenarios exclude clients emitting events literally named '
@@ -79,7 +84,7 @@ def strategy(tier):
         'part': st.just('gate'), 'aio': st.booleans(),
         'auth': st.sampled_from(['dict', 'list', 'pred', 'apred', 'false',
                                  'tpred', 'tapred', 'rpred', 'rapred',
-                                 'opred', 'wpred']),
+                                 'opred', 'wpred', 'spred']),
         'mode': st.sampled_from(['development', 'production']),
         'read_only': st.booleans(),
         'payloads': st.lists(payload_variants(), min_size=1, max_size=4)})
@@ -185,6 +190,8 @@ def _rpred_oracle(p):
 
 
 def _mk_auth(kind, aio):
+    if kind == 'spred':
+        kind = 'apred'      # (the gate suspends it, see _gate)
     if kind == 'opred' and aio:
         # an asynchronous predicate that is not a plain coroutine function:
         # an object with an async __call__
@@ -241,6 +248,13 @@ def _gate(case):
     w, log = _app_server(aio)
     try:
         auth, oracle = _mk_auth(case['auth'], aio)
+        gate_box = [None]
+        if case['auth'] == 'spred' and aio:
+            async def slow(p, inner=auth):
+                if gate_box[0] is not None:
+                    await gate_box[0]
+                return await inner(p)
+            auth = slow
         w.sio.instrument(auth=auth, mode=case['mode'],
                          read_only=case['read_only'])
         labels = {'part': 'gate', 'aio': aio, 'auth': case['auth'],
@@ -248,6 +262,39 @@ def _gate(case):
         app_t = w.open()
         w.connect(app_t, '/')
         refused = []
+        if case['auth'] == 'spred' and aio:
+            # a predicate that takes its time (a database look-up): while a
+            # candidate's verdict is pending, application traffic goes on
+            loop = w.h.loop
+            gate = gate_box[0] = loop.create_future()
+            t = w.open()
+            P = w.h.eio_packet
+            sock = w.h.eio.sockets[w.t[t]]
+            task = loop.spawn(sock.receive(P.Packet(
+                P.MESSAGE, '0/admin,{"username":"nobody","password":"x"}')))
+            loop.run_until_idle()
+            pending = not task.done()
+            w.send(app_t, wire.EVENT, '/', None, ['a', 'secret-123'])
+            w.h.settle()
+            leaked = [p for p in w.recv(t) if 'secret-123' in repr(p)]
+            gate.set_result(None)
+            loop.run_until_idle()
+            later = w.recv(t)
+            if pending and leaked:
+                det = ('a candidate whose authentication was still pending '
+                       'was sent %r' % (leaked[:1],))
+                if KF_PENDING in KNOWN:
+                    labels['kf:' + KF_PENDING] = True
+                else:
+                    raise Violation(KF_PENDING, det)
+            if wire.CONNECT in [p['type'] for p in later
+                                if p['nsp'] == '/admin']:
+                raise Violation('admin-accepted-without-credentials',
+                                repr(later[:2]))
+            refused.append(t)
+            labels['verdict_pending_while_traffic'] = pending
+            labels['nontrivial'] = True
+            gate_box[0] = None
         for payload in case['payloads']:
             t = w.open()
             data = None if payload == '<absent>' else payload
